@@ -263,7 +263,8 @@ MapnList(st, xs) == IF Len(xs) < 2 THEN <<>>
 ScalarList(st, xs) == [k \in 1 .. Len(xs) |-> Scalar(st, xs[k])]
 
 \* target of a creation / move: "obj" handle | "none" | "server" -> [id, group]
-TargetId(st, e) == IF e.tk = "obj" THEN st.obj[e.t].id ELSE st.cfg.defgroup
+\* target kinds: an object, nothing / the server (the default group), or the plain integer 0 (the root node)
+TargetId(st, e) == IF e.tk = "obj" THEN st.obj[e.t].id ELSE IF e.tk = "root" THEN 0 ELSE st.cfg.defgroup
 
 RECURSIVE RefsOf(_)
 RefsOf(xs) == IF xs = <<>> THEN {}
